@@ -178,7 +178,7 @@ def c07_table(**p):
         if not star:
             for (a, b) in pairs:
                 if c.flag(f"e{a}_{b}"):
-                    bt = c.int(f"bt{a}_{b}")
+                    bt = c.int(f"bt{a}_{b}", 1, 10)          # the bond types the V3000 specification defines
                     a1, a2 = (b, a) if c.flag(f"fl{a}_{b}") else (a, b)
                     xk = c.choice(f"bx{a}_{b}", len(V3000_BOND_KEYWORDS) + 1) if p.get("bond_extra") else len(V3000_BOND_KEYWORDS)
                     blines.append(B3(bi, bt, idx[a1], idx[a2], extra=V3000_BOND_KEYWORDS[xk] if xk < len(V3000_BOND_KEYWORDS) else None))
@@ -192,7 +192,7 @@ def c07_table(**p):
             c.assume(len(members) >= 1)
             if len(members) > 1 and c.flag("ep_rev"):
                 members = list(reversed(members))
-            bt = c.int("bt_star")
+            bt = c.int("bt_star", 1, 10)
             a1, a2 = (idx[n], idx[src]) if c.flag("star_first") else (idx[src], idx[n])
             attach = ("ANY", "ALL")[c.choice("attach", 2)]
             blines.append(B3(1, bt, a1, a2, endpts=[idx[m] for m in members], attach=attach))
@@ -201,7 +201,7 @@ def c07_table(**p):
             # plus an ordinary bond between two real atoms not already bonded
             if p.get("plain_bond", True) and len(others) >= 2:
                 u, v = others[0], others[1]
-                bt2 = c.int("bt_plain")
+                bt2 = c.int("bt_plain", 1, 10)
                 blines.append(B3(2, bt2, idx[u], idx[v]))
                 want[(u, v)] = bt2
         text = v3000_text([atoms[a] for a in order], blines)
@@ -351,7 +351,7 @@ def c08(**p):
         for (a, b) in pairs:
             present = c.flag(f"e{a}_{b}") if mode == "bonds" else (b == a + 1)
             if present:
-                bt = c.int(f"bt{a}_{b}") if mode in ("bonds", "layout") else 1
+                bt = c.int(f"bt{a}_{b}", 1, 8) if mode in ("bonds", "layout") else 1      # V2000 bond types 1..8
                 a1, a2 = (b, a) if mode == "bonds" and c.flag(f"fl{a}_{b}") else (a, b)
                 blines2.append(v2000_bond_line(a1 + 1, a2 + 1, bt))
                 blines3.append(B3(len(blines3) + 1, bt, a1 + 1, a2 + 1))
@@ -451,7 +451,7 @@ def c06(**p):
                 pr = list(reversed(pr))
             a2.append(A3(idx[a], mol.elements[a], xyz, pr, aamap=c.int(f"aam{a}", 0) if a == 0 else 0,
                          extra=xk_atom if a == 0 else None, extra_pos=0))
-        b2 = [B3(k + 1, c.int(f"bt{a}_{b}"), idx[a], idx[b], extra=xk_bond if k == 0 else None) for k, (a, b) in enumerate(blist)]
+        b2 = [B3(k + 1, c.int(f"bt{a}_{b}", 1, 10), idx[a], idx[b], extra=xk_bond if k == 0 else None) for k, (a, b) in enumerate(blist)]
         header = HEADERS[c.choice("header", len(HEADERS))] if variant == 0 else ("", "  REF", "")
         trailing = TRAILING[c.choice("trailing", len(TRAILING))] if variant == 3 else ()
         t2 = v3000_text(a2, b2, header=header, trailing=trailing, eol="\r\n" if variant == 4 else "\n")
@@ -490,7 +490,7 @@ def c06_v2000(**p):
             if alt and p.get("codes"):
                 codes = [(0, 1, 2, 3, 5, 6, 7)[c.choice(f"ccc{a}", 7)] for a in range(n)]      # charge codes only (4 = radical is identity data)
             al = [v2000_atom_line(mol.elements[a], (1.5 * a if alt else 0.0, -0.25 if alt else 0.0, 0.0), ccc=codes[a]) for a in range(n)]
-            bl = [v2000_bond_line(a + 1, b + 1, c.int(f"bt{a}_{b}") if alt else 1, stereo=(1 if alt and k == 0 else 0)) for k, (a, b) in enumerate(blist)]
+            bl = [v2000_bond_line(a + 1, b + 1, c.int(f"bt{a}_{b}", 1, 8) if alt else 1, stereo=(1 if alt and k == 0 else 0)) for k, (a, b) in enumerate(blist)]
             pl = []
             chg = [(a + 1, c.int(f"chg{a}", -15, 15)) for a in range(n)] if alt and not p.get("codes") else []
             pl += fixed_lines("CHG", chg) if chg else []
@@ -718,4 +718,56 @@ def c02_reader(**p):
         rad2 = [attrs.get(i, {}).get("rad") for i in range(len(el))]
         cond, nphi = iso_condition(n, el, bonds, mass2, rad2, mol.elements, list(mol.bonds), mol.mass, mol.rad)
         c.oblige("decoded-graph-isomorphic-to-the-molecule-in-the-file", cond)
+    return body
+
+
+def c02_reader_big(**p):
+    """Three-digit atom numbers in V2000 property lines: a 120-atom chain with one mass label and one radical
+    at solver-chosen positions from a list that straddles 99/100/101; the emitted string must decode to that molecule."""
+    n = p.get("n", 120)
+    spots = p.get("spots", [4, 16, 98, 99, 100, 104, 116, 119])
+
+    def body(c):
+        from harness.pipeline import ref_decode, iso_condition
+        pm = spots[c.choice("mass_at", len(spots))]
+        pr = spots[c.choice("rad_at", len(spots))]
+        mass = [None] * n
+        rad = [None] * n
+        mass[pm] = 13
+        rad[pr] = 2
+        al = [v2000_atom_line("C", (float(a), 0.0, 0.0)) for a in range(n)]
+        bl = [v2000_bond_line(a + 1, a + 2, 1) for a in range(n - 1)]
+        pl = [v2000_prop_line("RAD", [(pr + 1, 2)]), v2000_prop_line("ISO", [(pm + 1, 13)])]
+        s = tucan_of(T()["read"](v2000_text(al, bl, pl)))
+        c.note("labels_at", [pm + 1, pr + 1])
+        c.note("tucan_tail", s[-40:])
+        el, bonds, attrs, _ = ref_decode(s)
+        mass2 = [attrs.get(i, {}).get("mass") for i in range(len(el))]
+        rad2 = [attrs.get(i, {}).get("rad") for i in range(len(el))]
+        cond, nphi = iso_condition(n, el, bonds, mass2, rad2, ["C"] * n, [(a, a + 1) for a in range(n - 1)], mass, rad)
+        c.oblige("decoded-graph-isomorphic-to-the-molecule-in-the-file", cond)
+    return body
+
+
+
+def c07_star_many(**p):
+    """A multi-attachment bond with many endpoints (two-digit ENDPTS count): atom 1 bonded to a star atom whose
+    ENDPTS list names k of the other atoms, k chosen by the solver from a list around 9/10/11."""
+    def body(c):
+        shadows(c)
+        n = 13
+        k = (1, 2, 9, 10, 11, 12)[c.choice("k", 6)]
+        atoms = [A3(a + 1, "C" if a else "Fe", (float(a), 0.0, 0.0), []) for a in range(n)] + [A3(n + 1, "*", (0.0, 0.0, 0.0), [])]
+        members = list(range(1, 1 + k))
+        bt = c.int("bt_star", 1, 10)
+        star_first = c.flag("star_first")
+        b = B3(1, bt, n + 1 if star_first else 1, 1 if star_first else n + 1, endpts=[m + 1 for m in members], attach=("ANY", "ALL")[c.choice("attach", 2)])
+        ring = [B3(i + 2, 1, i + 2, i + 3) for i in range(n - 2)]
+        text = v3000_text(atoms, [b] + ring)
+        g = T()["read"](text)
+        c.note("endpoints", k)
+        want = {(0, m): bt for m in members}
+        want.update({(i + 1, i + 2): 1 for i in range(n - 2)})
+        c.oblige("one-node-per-non-star-atom", g.number_of_nodes() == n)
+        check_bonds(c, g, want)
     return body
